@@ -225,7 +225,8 @@ LEVEL_TEXT = ("Theorems C14_limit_monotone (all inputs, readers, limits m1 <= m2
               "C14_known_chunk_never_out_of_place (accepted with the option => the grammar of C06 holds, whose tail admits only unknown chunks).")
 LEVEL_NOTE = ("Trusted: Coq kernel; hand-written model and its correspondence batch; Spec.v tiling as the reading of 'declared size t'; extraction + "
               "OCaml driver; Rust harness; the Python top-level box walker of the pairwise oracle. No axioms.")
-TECHNIQUE = "Coq proof about a hand-written model + extracted-model/Rust differential check + pairwise implementation oracle over config lattices"
+TECHNIQUE = ("Coq proof about a hand-written model (the known-chunk lists of the trailing-chunk loops regenerated from the source) + extracted-model/Rust "
+             "differential check + pairwise implementation oracle over config lattices")
 DESIGN_REF = "DESIGN.md section 7 (C14)"
 
 
